@@ -214,6 +214,9 @@ Section Abs.
     match run_all exc I with
     | None => None
     | Some oc =>
+      match o_brk oc with
+      | _ :: _ => None                 (* a `break` inside a loop condition *)
+      | [] =>
         match bind_norm {| o_norm := filter (fun vs => match fst vs with Some false => false | _ => true end) (o_norm oc);
                            o_brk := []; o_ret := [] |} (fun _ st1 => exb st1) with
         | None => None
@@ -222,6 +225,7 @@ Section Abs.
             Some ({| o_norm := map (fun s => (Some true, s)) exits; o_brk := []; o_ret := o_ret oc ++ o_ret ob |},
                   map snd (o_norm ob))
         end
+      end
     end.
   (** grow the head set until it is inductive (the next heads are already in it); the result is that of the last round *)
   Fixpoint witer (exc exb : astate -> option aouts) (k : nat) (I : list astate) : option aouts :=
@@ -231,7 +235,7 @@ Section Abs.
         match wround exc exb I with
         | None => None
         | Some (res, next) =>
-            if subset_states next I then Some res else witer exc exb k' (dedup_states (I ++ next))
+            if subset_states next I then Some res else witer exc exb k' (I ++ next)
         end
     end.
 
